@@ -310,14 +310,18 @@ func prop(c Case) error {
 		if err := check("xyz.Distance(p,q)", xyz.Distance(c3(P[0]), c3(P[1])), d2, tol, true); err != nil {
 			return err
 		}
-		return check("xyz.Distance(q,p)", xyz.Distance(c3(P[1]), c3(P[0])), d2, tol, true)
+		if err := check("xyz.Distance(q,p)", xyz.Distance(c3(P[1]), c3(P[0])), d2, tol, true); err != nil {
+			return err
+		}
 	case "pt-seg2":
 		tol := 1e-12 * scaleOf(c, 2)
 		d2 := exact.PointSegDist2(e2(P[0]), e2(P[1]), e2(P[2]))
 		if err := check("xy.DistanceFromPointToLine(p,a,b)", xy.DistanceFromPointToLine(cc(0), cc(1), cc(2)), d2, tol, true); err != nil {
 			return err
 		}
-		return check("xy.DistanceFromPointToLine(p,b,a)", xy.DistanceFromPointToLine(cc(0), cc(2), cc(1)), d2, tol, true)
+		if err := check("xy.DistanceFromPointToLine(p,b,a)", xy.DistanceFromPointToLine(cc(0), cc(2), cc(1)), d2, tol, true); err != nil {
+			return err
+		}
 	case "perp2":
 		tol := 1e-12 * scaleOf(c, 2)
 		a, b, p := e2(P[1]), e2(P[2]), e2(P[0])
@@ -326,14 +330,18 @@ func prop(c Case) error {
 		if err := check("xy.PerpendicularDistanceFromPointToLine(p,a,b)", xy.PerpendicularDistanceFromPointToLine(cc(0), cc(1), cc(2)), d2, tol, true); err != nil {
 			return err
 		}
-		return check("xy.PerpendicularDistanceFromPointToLine(p,b,a)", xy.PerpendicularDistanceFromPointToLine(cc(0), cc(2), cc(1)), d2, tol, true)
+		if err := check("xy.PerpendicularDistanceFromPointToLine(p,b,a)", xy.PerpendicularDistanceFromPointToLine(cc(0), cc(2), cc(1)), d2, tol, true); err != nil {
+			return err
+		}
 	case "pt-seg3":
 		tol := 1e-12 * scaleOf(c, 3)
 		d2 := exact.PointSegDist2_3(e3(P[0]), e3(P[1]), e3(P[2]))
 		if err := check("xyz.DistancePointToLine(p,a,b)", xyz.DistancePointToLine(c3(P[0]), c3(P[1]), c3(P[2])), d2, tol, false); err != nil {
 			return err
 		}
-		return check("xyz.DistancePointToLine(p,b,a)", xyz.DistancePointToLine(c3(P[0]), c3(P[2]), c3(P[1])), d2, tol, false)
+		if err := check("xyz.DistancePointToLine(p,b,a)", xyz.DistancePointToLine(c3(P[0]), c3(P[2]), c3(P[1])), d2, tol, false); err != nil {
+			return err
+		}
 	case "pt-ls2":
 		tol := 1e-12 * scaleOf(c, 2)
 		stride := c.Stride
@@ -430,6 +438,64 @@ func prop(c Case) error {
 		}
 	default:
 		return fmt.Errorf("unknown fn %q", c.Fn)
+	}
+	return windows(c, cc)
+}
+
+// windows hands the 2-D and 3-D point and segment functions their arguments as windows
+// of one flat array (what Coord(i) and slicing FlatCoords give: every window's capacity
+// runs on over its neighbours), laid out in a rotated order: the result is bit for bit
+// the one for separate slices and the array is left as it was.
+func windows(c Case, cc func(int) geom.Coord) error {
+	var args []geom.Coord
+	var call func(a []geom.Coord) float64
+	switch c.Fn {
+	case "dist3":
+		args = []geom.Coord{c3(c.P[0]), c3(c.P[1])}
+		call = func(a []geom.Coord) float64 { return xyz.Distance(a[0], a[1]) }
+	case "pt-seg2":
+		args = []geom.Coord{cc(0), cc(1), cc(2)}
+		call = func(a []geom.Coord) float64 { return xy.DistanceFromPointToLine(a[0], a[1], a[2]) }
+	case "perp2":
+		args = []geom.Coord{cc(0), cc(1), cc(2)}
+		call = func(a []geom.Coord) float64 { return xy.PerpendicularDistanceFromPointToLine(a[0], a[1], a[2]) }
+	case "pt-seg3":
+		args = []geom.Coord{c3(c.P[0]), c3(c.P[1]), c3(c.P[2])}
+		call = func(a []geom.Coord) float64 { return xyz.DistancePointToLine(a[0], a[1], a[2]) }
+	case "seg-seg2":
+		args = []geom.Coord{cc(0), cc(1), cc(2), cc(3)}
+		call = func(a []geom.Coord) float64 { return xy.DistanceFromLineToLine(a[0], a[1], a[2], a[3]) }
+	case "seg-seg3":
+		args = []geom.Coord{c3(c.P[0]), c3(c.P[1]), c3(c.P[2]), c3(c.P[3])}
+		call = func(a []geom.Coord) float64 { return xyz.DistanceLineToLine(a[0], a[1], a[2], a[3]) }
+	default:
+		return nil
+	}
+	want := call(args)
+	n := len(args)
+	for rot := 1; rot <= 2; rot++ {
+		var flat []float64
+		off := make([]int, n)
+		for r := 0; r < n; r++ {
+			k := (r + rot) % n
+			off[k] = len(flat)
+			flat = append(flat, args[k]...)
+		}
+		flat = append(flat, 7, 7, 7)[:len(flat)]
+		before := append([]float64{}, flat[:cap(flat)]...)
+		w := make([]geom.Coord, n)
+		for k := range w {
+			w[k] = geom.Coord(flat[off[k] : off[k]+len(args[k])])
+		}
+		if got := call(w); math.Float64bits(got) != math.Float64bits(want) && !(got != got && want != want) {
+			return fmt.Errorf("%s with its arguments as windows of one array (rotated by %d) = %v, %v with separate slices", c.Fn, rot, got, want)
+		}
+		now := flat[:cap(flat)]
+		for i := range before {
+			if math.Float64bits(before[i]) != math.Float64bits(now[i]) {
+				return fmt.Errorf("%s with its arguments as windows of one array changed element %d from %v to %v", c.Fn, i, before[i], now[i])
+			}
+		}
 	}
 	return nil
 }
